@@ -399,8 +399,23 @@ def inlined(prog, fi):
         return fi
     ast.fix_missing_locations(node)
     _prepare(prog, new_fi, node, fi)
+    _number(node)
     cache[id(fi)] = (fi, new_fi)
     return new_fi
+
+
+def _number(node):
+    """execution-order positions for the merged body: line numbers of inlined statements belong to another function, so
+    rules that compare positions use `_seq` (see model.order_key)"""
+    k = [0]
+
+    def go(n):
+        k[0] += 1
+        n._seq = k[0]
+        for ch in ast.iter_child_nodes(n):
+            go(ch)
+        n._seq_end = k[0]
+    go(node)
 
 
 def _is_function_tail(fn_node, stmt):
